@@ -2217,3 +2217,39 @@ def sock_publications(g, field='self._sock'):
         if hit and U(n.ast.value) != 'None':
             out.append(n)
     return out
+
+
+def lazy_pipeline(R, RID):
+    """The event pipeline (Parser.feed -> WebsocketStream.feed -> WebSocket.feed -> run) is consumed one item at a time:
+    no layer materialises the next layer's generator (list(...), tuple(...), sorted(...), a comprehension over it) before
+    acting on its first item.  Materialising parses the whole read before the first event is acted upon: automatic
+    replies are issued after later frames were processed (a Close later in the read makes the Pong impossible), valid
+    messages in front of a bad frame are lost."""
+    feeds = ('parser.Parser.feed', 'stream.WebsocketStream.feed', 'websocket.WebSocket.feed')
+    n_fn = 0
+    for key, cx in sorted(R.types.ctxs.items(), key=lambda kv: str(kv[0])):
+        fi = cx.func
+        if fi.module.name not in ('session', 'websocket', 'stream', 'parser', 'frame_parser', 'proxy') \
+                or (fi.cls is not None and cx.recv != fi.cls.qual):
+            continue
+        n_fn += 1
+        for c in own_nodes(fi.node):
+            arg = None
+            how = None
+            if isinstance(c, ast.Call) and isinstance(c.func, ast.Name) and c.func.id in ('list', 'tuple', 'sorted', 'set', 'frozenset') \
+                    and len(c.args) == 1:
+                arg, how = c.args[0], c.func.id + '(...)'
+            elif isinstance(c, (ast.ListComp, ast.SetComp, ast.DictComp)):
+                arg, how = c.generators[0].iter, 'a comprehension'
+            if arg is None:
+                continue
+            if isinstance(arg, ast.Call) and isinstance(arg.func, ast.Name) and arg.func.id in ('islice', 'iter') and arg.args:
+                arg = arg.args[0]
+            tys = R.types.expr(arg, cx)
+            hit = [t for t in tys if isinstance(t, str) and t.startswith('gen:') and any(t[4:].startswith(f_) for f_ in feeds)]
+            if hit:
+                R.ob(RID, 'pipeline consumed lazily in %s' % fi.qual, False,
+                     '%s materialises %s with %s: every frame of the read is parsed and acted upon before the first '
+                     'resulting event is handled' % (fi.qual, U(arg), how), func=fi, node=c,
+                     construct='pipeline materialised in %s' % fi.qual)
+    R.ob(RID, 'pipeline laziness scan', n_fn >= 30, '%d functions scanned' % n_fn, func=None, node=None, construct='lazy pipeline scan')
